@@ -1,0 +1,61 @@
+//! Verification hooks. Compiled only with `--cfg bmwill_anemo_verif`; never part of a normal build.
+//!
+//! Everything here is a thin wrapper that exposes crate-private items to an external harness, or a
+//! named trace/pause point that is a no-op unless the harness installed a callback.
+
+use crate::PeerId;
+use std::sync::{
+    atomic::{AtomicI64, Ordering},
+    Arc, RwLock,
+};
+
+/// Information handed to the point callback.
+pub struct PointInfo<'a> {
+    pub name: &'static str,
+    pub own: Option<PeerId>,
+    pub peer: Option<PeerId>,
+    pub detail: Option<&'a str>,
+}
+
+pub type PointFn = Arc<dyn for<'a> Fn(&PointInfo<'a>) + Send + Sync>;
+
+static POINT: RwLock<Option<PointFn>> = RwLock::new(None);
+static TICK_JITTER_MS: AtomicI64 = AtomicI64::new(-1);
+
+/// Install (or remove) the process-wide callback invoked at every named point.
+pub fn set_point_callback(f: Option<PointFn>) {
+    *POINT.write().unwrap() = f;
+}
+
+pub fn point(name: &'static str) {
+    point_ctx(name, None, None, None)
+}
+
+pub fn point_ctx(
+    name: &'static str,
+    own: Option<PeerId>,
+    peer: Option<PeerId>,
+    detail: Option<&str>,
+) {
+    let cb = POINT.read().unwrap().clone();
+    if let Some(cb) = cb {
+        cb(&PointInfo {
+            name,
+            own,
+            peer,
+            detail,
+        })
+    }
+}
+
+/// Pin the random jitter that the connection manager adds to its connectivity-check interval.
+pub fn set_tick_jitter_ms(ms: Option<u64>) {
+    TICK_JITTER_MS.store(ms.map(|m| m as i64).unwrap_or(-1), Ordering::SeqCst);
+}
+
+pub(crate) fn tick_jitter(default: std::time::Duration) -> std::time::Duration {
+    match TICK_JITTER_MS.load(Ordering::SeqCst) {
+        ms if ms >= 0 => std::time::Duration::from_millis(ms as u64),
+        _ => default,
+    }
+}
